@@ -121,3 +121,27 @@ Proof.
       with (c * (t2 - (start + n * step)) / step - c * (t1 - (start + n * step)) / step) by lia.
     apply H; try lia; try (unfold YEAR; lia).
 Qed.
+
+(* C19 composed with C02: the cumulative amount minted up to a block time T is the integer part of the schedule's
+   cumulative emission X(T) (C02_cumulative_mint_is_floor_of_schedule), so what the blocks between T1 and T2 actually mint
+   is M = floor(X2) - floor(X1), which differs from the emission E = X2 - X1 by less than one base unit; combined with the
+   theorems above: the minted integer amount times 10^18 and rate * supply * interval / year differ by less than one base
+   unit (10^18 of the small units) plus the bound above *)
+Theorem minted_matches_rate X1 X2 y S dt :
+  0 <= X1 <= X2 ->
+  - YEAR < (X2 - X1) * YEAR - y * S * dt < YEAR + (S + 1) * dt ->
+  let M := dec_trunc_int X2 - dec_trunc_int X1 in
+  - (P + 1) * YEAR < M * P * YEAR - y * S * dt < (P + 1) * YEAR + (S + 1) * dt.
+Proof.
+  intros HX HE M. subst M. unfold dec_trunc_int.
+  pose proof P_pos as HP.
+  pose proof (chop_trunc_spec X1 ltac:(lia)) as [A1 B1].
+  pose proof (chop_trunc_spec X2 ltac:(lia)) as [A2 B2].
+  set (f1 := chop_trunc X1) in *. set (f2 := chop_trunc X2) in *.
+  assert (HY : 0 < YEAR) by (unfold YEAR; lia).
+  assert (H1 : (f2 - f1) * P - (X2 - X1) < P) by lia.
+  assert (H2 : - P < (f2 - f1) * P - (X2 - X1)) by lia.
+  assert (H3 : ((f2 - f1) * P - (X2 - X1)) * YEAR < P * YEAR) by nia.
+  assert (H4 : - P * YEAR < ((f2 - f1) * P - (X2 - X1)) * YEAR) by nia.
+  split; nia.
+Qed.
